@@ -10,6 +10,7 @@ import (
 	"crypto/ecdsa"
 	"fmt"
 	"math/big"
+	"sort"
 	"strings"
 	"time"
 
@@ -34,6 +35,7 @@ var (
 	hostKey  *ecdsa.PrivateKey
 	hostAddr common.Address
 	hostMH   *ucon.MessageHandler
+	hostMux  *event.TypeMux
 	hostLast string // outcome class of the last hostileOne call (for the distribution)
 )
 
@@ -61,7 +63,8 @@ func hostInit() {
 		return &state.Validator{OperatorAddress: addr, Coinbase: addr, Role: params.RoleChancellor, Status: params.ValidatorOnline,
 			Token: big.NewInt(1), Stake: big.NewInt(1)}, false
 	}
-	hostMH = ucon.NewMessageHandler(hostKey, new(event.TypeMux), getVal,
+	hostMux = new(event.TypeMux)
+	hostMH = ucon.NewMessageHandler(hostKey, hostMux, getVal,
 		func(ev ucon.ReceivedMsgEvent) (error, bool) { return nil, true },
 		func(msg *ucon.CachedPriorityMessage, st ucon.MsgReceivedStatus) (error, bool) { return nil, false },
 		func(msg *ucon.CachedBlockMessage, st ucon.MsgReceivedStatus) (error, bool) { return nil, false },
@@ -79,6 +82,9 @@ func hostileOne(kind string, data []byte) (what string) {
 	switch kind {
 	case "ucon":
 		hostLast = errClass(hostMH.HandleMsg(data, time.Unix(1700000000, 0)))
+	case "logdata":
+		_, _, _, err := staking.DecodeLogDataFromBytes(data)
+		hostLast = errClass(err)
 	case "staking":
 		db := state.NewDatabase(youdb.NewMemDatabase())
 		st, err := state.New(common.Hash{}, common.Hash{}, common.Hash{}, db)
@@ -193,6 +199,31 @@ func (h *H) hostile() {
 			h.res.Dist("hostile-ucon:" + hostLast)
 		}
 	}
+	// staking.DecodeLogDataFromBytes: a LogData envelope whose Data is decoded again according to its topic
+	topics := map[string]string{staking.LogTopicCreate: "state.Validator", staking.LogTopicUpdate: "state.Validator", staking.LogTopicDeposit: "state.Validator",
+		staking.LogTopicChangeStatus: "state.Validator", staking.LogTopicWithdraw: "state.WithdrawRecord", staking.LogTopicWithdrawResult: "state.WithdrawRecord",
+		staking.LogTopicSettle: "staking.Message", staking.LogTopicRewards: "staking.Message", staking.LogTopicSlashing: "staking.SlashData", "unknown": "state.Record"}
+	var topicNames []string
+	for k := range topics {
+		topicNames = append(topicNames, k)
+	}
+	sort.Strings(topicNames)
+	for i := 0; i < n/3 && h.err == nil; i++ {
+		topic := topicNames[r.Intn(len(topicNames))]
+		payload, label := perturb(h.modelBytes(topics[topic], r))
+		data, _ := rlp.EncodeToBytes(&staking.LogData{Topic: topic, Tags: []string{"a"}, Data: payload})
+		if r.Chance(15) {
+			data, _ = perturb(data)
+			label += "+outer"
+		}
+		h.res.Count("M|logdata|"+string(data), label != "random")
+		if w := hostileOne("logdata", data); w != "" {
+			h.fail("oracle", "", "logdata-decoder", w+" ("+label+")", []string{"M logdata " + hx(data)})
+		} else {
+			h.res.Dist("hostile-logdata:" + hostLast)
+		}
+	}
+	h.honestSendLoop()
 	stakingSchemas := map[uint8]string{1: "staking.TxCreateValidator", 2: "staking.TxUpdateValidator", 3: "staking.TxValidatorDeposit",
 		4: "staking.TxValidatorWithdraw", 5: "staking.TxValidatorChangeStatus", 6: "staking.TxValidatorSettle",
 		0x10: "staking.TxDelegation", 0x11: "staking.TxDelegation", 0x12: "staking.TxDelegationSettle"}
@@ -215,6 +246,51 @@ func (h *H) hostile() {
 			h.fail("oracle", "", "staking-converter", w+" ("+label+")", []string{"M staking " + hx(data)})
 		} else {
 			h.res.Dist("hostile-staking:" + hostLast)
+		}
+	}
+}
+
+// honestSendLoop: the handler's own sending path (Start, eventLoop, sendMsg: sign + Message.Encode + gossip event) and
+// context updates; every message the node itself would gossip must get past decoding and signature recovery of HandleMsg.
+func (h *H) honestSendLoop() {
+	r := h.c.R
+	hostMH.Start()
+	defer hostMH.Stop()
+	sub := hostMux.Subscribe(ucon.MessageEvent{})
+	defer sub.Unsubscribe()
+	n := h.c.N(60, 600)
+	for i := 0; i < n; i++ {
+		code := uint8(1 + r.Intn(6))
+		sch := map[uint8]string{1: "ucon.ConsensusCommon", 2: "types.Block"}[code]
+		if sch == "" {
+			sch = "ucon.BlockHashWithVotes"
+		}
+		payload := h.modelBytes(sch, r)
+		if payload == nil {
+			continue
+		}
+		if i%10 == 0 {
+			hostMux.Post(ucon.ContextChangeEvent{Round: big.NewInt(int64(1 + r.Intn(5))), RoundIndex: uint32(r.Intn(3)), Step: ucon.UConStepStart})
+		}
+		hostMux.Post(ucon.SendMessageEvent{Code: ucon.MsgType(code), Payload: payload, Round: big.NewInt(1)})
+		select {
+		case ev := <-sub.Chan():
+			me, ok := ev.Data.(ucon.MessageEvent)
+			if !ok {
+				continue
+			}
+			if w := hostileOne("ucon", me.Payload); w != "" {
+				h.fail("oracle", "", "ucon-honest-send", w+" (message produced by the handler's own sendMsg)", []string{"M ucon " + hx(me.Payload)})
+				continue
+			}
+			h.res.Dist("honest-send:" + hostLast)
+			switch hostLast {
+			case "decode-from-msg.data", "invalid-signature", "recovery-failed":
+				h.fail("oracle", "", "ucon-honest-send", "HandleMsg does not take back a message produced by the handler's own sendMsg: "+hostLast, []string{"M ucon " + hx(me.Payload)})
+			}
+		case <-time.After(5 * time.Second):
+			h.res.Dist("honest-send:timeout-not-exercised")
+			return
 		}
 	}
 }
